@@ -1,7 +1,7 @@
 """C05 - ListGrader: best consistent assignment, reported per input box."""
 import itertools
 
-from symx import Harness, pname, sand, sor, simplies, siff, near_le, near_eq, snot, sif
+from symx import Harness, pname, sand, sor, simplies, siff, near_le, near_eq, snot, sif, Abort
 from symx.stubs import make_table_grader, shadow, NpObjProxy, wellformed
 
 PROPERTY = 'C05'
@@ -238,6 +238,27 @@ def h_singleton_groups(E, n):
     return [list(t) for t in tags]
 
 
+def h_groupify(E, n, k):
+    """every assignment of n boxes to k groups (group labels as symbolic integers): groupify_list hands group g exactly the boxes labelled g, in box
+    order, and ungroupify_list puts per-group results back at the boxes they came from"""
+    from mitxgraders import ListGrader, StringGrader
+    from mitxgraders.exceptions import ConfigError
+    labels = [E.fork_int('group_of_box_%d' % i, 1, k) for i in range(n)]
+    if set(labels) != set(range(1, k + 1)):
+        raise Abort()          # labels must be 1..k without gaps: other lists are refused at construction (C20)
+    sub = [ListGrader(subgraders=StringGrader(), ordered=True) if labels.count(g_) > 1 else StringGrader() for g_ in range(1, k + 1)]
+    answers = [['a'] * labels.count(g_) if labels.count(g_) > 1 else 'a' for g_ in range(1, k + 1)]
+    g = ListGrader(answers=answers, subgraders=sub, ordered=True, grouping=labels)
+    boxes = ['box%d' % i for i in range(n)]
+    grouped = ListGrader.groupify_list(g.grouping, list(boxes))
+    want = [[boxes[i] for i in range(n) if labels[i] == g_] for g_ in range(1, k + 1)]
+    norm_ = [x if isinstance(x, list) else [x] for x in grouped]
+    E.check('groups-hold-exactly-their-boxes-in-box-order', norm_ == want)
+    back = ListGrader.ungroupify_list(g.grouping, [[('r', b) for b in grp] if len(grp) > 1 else ('r', grp[0]) for grp in want])
+    E.check('results-return-to-their-boxes', [b[1] for b in back] == boxes)
+    return 'ok'
+
+
 def h_palette4(E, ordered_rows):
     """4 inputs, credits from the palette {0, 1/2, 1} (symbolic integers /2): the smallest size at which a slip in the assignment solver's
     step 6 shows; only the FIRST `ordered_rows` rows are symbolic to keep the path count bounded, the rest are a fixed generic pattern"""
@@ -287,6 +308,8 @@ def harnesses(tier):
         add(h_multi3, 'multi3', dict(ties=tp), '3 answer lists, 2 inputs, credits in (0,1)')
     for layout in ('1122', '1212'):
         add(h_nested, 'nested', dict(outer=False, inner=True, interior=True, layout=layout), '2 groups x 2 inputs, credits in (0,1)')
+    for n, k in ((7, 2), (8, 2), (6, 3)):
+        add(h_groupify, 'groupify', dict(n=n, k=k), 'every labelling of the boxes', validate=False)
     for n in (2, 3):
         add(h_singleton_groups, 'singleton_groups', dict(n=n), 'every permutation as a grouping of one box per group, credits in (0,1)')
     for layout in ('2211', '2121', '1221'):
